@@ -150,6 +150,16 @@ class World:
         # pristine registry: never goes through wraps; the oracles compute expectations here
         self.ref = pint.UnitRegistry(non_int_type=F, cache_folder=None)
 
+        # every conversion of the working registry starts from cold conversion caches (see clear):
+        # under F23 a float factor cached by one argument is found again, under an equal key, by a
+        # later exact conversion of the same call; K observes wraps' own logic, not the cache (C13)
+        orig = self.ureg._convert
+
+        def cold(*a, **k):
+            self.clear()
+            return orig(*a, **k)
+        self.ureg._convert = cold
+
     def clear(self):
         """cold conversion caches for every case: a float factor cached by an earlier string-spec
         call (finding F23) is found again under the equal exact container"""
@@ -298,7 +308,7 @@ def gen_specs(rng, n, malformed):
     specs = [None] * n
     kinds = [rng.choices(["none", "str", "unit", "ref"], [15, 30, 15, 40])[0] for _ in range(n)]
     refpos = [i for i, k in enumerate(kinds) if k == "ref"]
-    ndefs = rng.randint(1, min(len(refpos), 3)) if refpos else 0
+    ndefs = rng.randint(1, min(max(1, len(refpos) - rng.randint(0, 1)), 3)) if refpos else 0
     defpos = sorted(rng.sample(refpos, ndefs)) if refpos else []
     defnames = rng.sample(REFNAMES, ndefs)
     for i, k in enumerate(kinds):
@@ -356,9 +366,9 @@ def gen_values(rng, specs):
         elif k == "unit":
             d = items_dim([tuple(y) for y in spec_items(x)])
             r = rng.random()
-            if r < 0.75:
+            if r < 0.82:
                 vals[i] = val_qty(rng, d)
-            elif r < 0.85:
+            elif r < 0.9:
                 vals[i] = val_qty(rng, other_dim(rng, d))
             else:
                 vals[i] = val_num(rng)
@@ -920,12 +930,15 @@ def detect_quirks(w):
     r = ureg.wraps(None, "m/s")(lambda a: got.append(a))
     r(Q(F(1), "km/hour"))
     str_float = not (exact_num(got[0]) and got[0] == F(5, 18))
+    got2 = []
+    ureg.wraps(None, ["=C/B", "=B", "=C"])(lambda a, b, c: got2.append(a))(16, Q(12, "mm**2"), Q(1, "mile**2"))
+    bare_float = not (exact_num(got2[0]) and got2[0] == F(1, 161874256896))   # 16 mm**2 / mile**2
     try:
         ureg.wraps(None, ["=A", "=A**-1"])(lambda a, b: None)(Q(0, "m"), Q(2, "1/m"))
         replace_mag = False
     except ZeroDivisionError:
         replace_mag = True
-    return str_float, replace_mag
+    return str_float or bare_float, replace_mag, str_float, bare_float
 
 
 # ------------------------------------------------------------------ the check
@@ -965,7 +978,8 @@ def run(ck):
         "parameter kinds: positional-or-keyword only; no *args/**kwargs; string arguments, offset units, arrays are outside the model",
         "set iteration over small ints (argument indices) is ascending in CPython: the first failing index of a pass decides the error class",
         "conversion itself is a field of the model (us_conv); for K it is a hand-written table of 45 names, validated against pint per run (KConv/KDim)",
-        "under switch q_float_leak the model only predicts an approximation (1e-12 relative) for string-spec conversions; binary floats are not modelled",
+        "under switch q_float_leak the model only predicts an approximation (1e-12 relative) for string-spec / bare-dependent conversions; binary floats are not modelled",
+        "the working registry's conversion caches are emptied before every conversion (instance-level wrapper around ureg._convert): cache pollution by F23's float factors is C13's subject",
     ]
     targets = ["Properties/C17.vo", "Model/WrapsRun.vo"]
     from .common import COQ
@@ -978,7 +992,12 @@ def run(ck):
     w = World()
     quirks = detect_quirks(w)
     ck.extra["defect_switches"] = {"q_float_leak": quirks[0], "q_replace_mag": quirks[1]}
-    if quirks[0]:
+    if quirks[3]:
+        ck.violation("inexact-bare-dependent",
+                     "Fraction registry: wraps(None, ['=C/B', '=B', '=C']) hands the bare number 16 over as a float",
+                     {"kind": "witness", "ret": None, "args": ["=C/B", "=B", "=C"],
+                      "call": ["16", "Q(12,'mm**2')", "Q(1,'mile**2')"]})
+    if quirks[2]:
         ck.violation("inexact-string-spec",
                      "Fraction registry: wraps(None, 'm/s') hands Q(1, 'km/hour') over as an inexact number instead of 5/18",
                      {"kind": "witness", "ret": None, "args": "m/s", "call": "Q(Fraction(1), 'km/hour')"})
